@@ -63,6 +63,7 @@ class C03(Prop):
             cfg["example"] = r.choice(corpus.names("edf", 12000 if tier == "quick" else 70000))
         cfg["chunk_law"] = r.choice(["whole", "32768", "1..64", "1..7"])
         cfg["restart"] = r.random() < 0.4
+        cfg["third"] = cfg["source"] == "hier" and not cfg["restart"] and r.random() < 0.5
         cfg["policy_start"] = r.choice(["DEFAULT", "DEFAULT", "EDIF"])
         return cfg
 
@@ -85,11 +86,49 @@ class C03(Prop):
         p1 = len(ev) - 1
         ev.append({"op": "compose", "on": "e%d.0" % p1, "path": "sim://b.edf", "tag": "second"})
         ev.append({"op": "parse", "path": "sim://b.edf", "tag": "reread2"})
-        return ScriptGen(ev)
+        if not cfg.get("third"):
+            return ScriptGen(ev)
+        # a third write of the SAME netlist object after it was edited (anything the writer remembered about
+        # it from the first write is stale now): permuted pins of an instanced array port, renamed elements
+        state = {"phase": 0, "left": rng.choice([1, 2, 3])}
+
+        def more():
+            n = w.h(net)
+            if n is None or self.skip_rest:
+                return None
+            if state["phase"] == 0:
+                state["left"] -= 1
+                if state["left"] <= 0:
+                    state["phase"] = 1
+                defs = [d for lib in n.libraries for d in lib.definitions]
+                x = rng.random()
+                if x < 0.6:
+                    ports = [p for d in defs for p in d.ports if len(p.pins) > 1 and len(d.references) > 0
+                             and all(w.handle_of(q) for q in p.pins)]
+                    if ports:
+                        p = rng.choice(ports)
+                        pins = list(p.pins)
+                        k = rng.randrange(1, len(pins))
+                        pins = pins[k:] + pins[:k]
+                        return {"op": "set_pins", "on": w.handle_of(p), "xs": [w.handle_of(q) for q in pins], "tag": "edit"}
+                kids = [c for d in defs for c in list(d.children) + list(d.cables) if w.handle_of(c)]
+                if kids:
+                    c = rng.choice(kids)
+                    return {"op": "set_name", "on": w.handle_of(c), "v": "renamed_%d" % rng.randint(0, 10 ** 6), "tag": "edit"}
+                state["phase"] = 1
+            if state["phase"] == 1:
+                state["phase"] = 2
+                return {"op": "compose", "on": net, "path": "sim://c.edf", "tag": "third"}
+            if state["phase"] == 2:
+                state["phase"] = 3
+                return {"op": "parse", "path": "sim://c.edf", "tag": "reread3"}
+            return None
+        return ScriptGen(ev, more)
 
     def start(self, w, cfg):
         self.form_a = None
         self.form_b = None
+        self.form_c = None
         self.cfg = cfg
         self.skip_rest = False
         self.composed = False
@@ -118,7 +157,7 @@ class C03(Prop):
                 raise Violation("C03.writer_rejected", "%s:%s:%s" % (tag, outcome.split(":", 1)[-1], msg[:40]),
                                 "compose raised %s (%s)" % (outcome, msg))
             form = named(n)
-            if tag in ("first", "second"):
+            if tag in ("first", "second", "third"):
                 bad = [c for lib in n.libraries for d in lib.definitions for c in d.cables
                        if (c.is_array or len(c.wires) > 1) and str(c.get("EDIF.identifier", "")).startswith("&_")]
                 if bad:
@@ -129,17 +168,19 @@ class C03(Prop):
                         self.skip_rest = True
                     else:
                         self.amp_bus = True
-            if tag in ("first", "second") and any(
+            if tag in ("first", "second", "third") and any(
                     (c.is_array or len(c.wires) > 1) and c.lower_index < 0
                     for lib in n.libraries for d in lib.definitions for c in d.cables):
                 self.negative_index = True
+            if tag == "third":
+                self.form_c = form
             if tag == "first":
                 self.form_a = form
                 if any(len(w_.pins) >= 2 for lib in n.libraries for d in lib.definitions for c in d.cables
                        for w_ in c.wires):
                     w.count("probe.net_with_two_endpoints")
             self.check_sexpr(w, n, w.fs.files[norm(ev["path"])], tag)
-        elif op == "parse" and tag in ("reread", "reread2", "source"):
+        elif op == "parse" and tag in ("reread", "reread2", "reread3", "source"):
             if self.skip_rest and tag != "source":
                 return
             if outcome != "ok" and tag != "source" and self.negative_index:
@@ -163,7 +204,12 @@ class C03(Prop):
             form = named(n)
             if self.skip_rest:
                 return
-            if tag == "reread":
+            if tag == "reread3":
+                d = dict_diff(self.form_c, form)
+                if d:
+                    raise Violation("C03.diff_after_edit." + classify(d), "third_write", d)
+                w.count("probe.third_write_compared")
+            elif tag == "reread":
                 d = dict_diff(self.form_a, form)
                 if d and self.amp_bus and "/cables" in d:
                     raise Violation("C03.bus_not_reassembled", "amp_underscore_identifier", d)
